@@ -111,8 +111,12 @@ def select(fx, q, nparams=None, pick=None, enclosing=None, ptypes=None):
         fns = [f for f in fns if pick(f)]
     if ptypes:
         # overloads with the same number of parameters: by a substring of the canonical type of a parameter
-        fns = [f for f in fns if all(int(i) < len(f.o["params"]) and sub in f.facts.TC(f.o["params"][int(i)]["t"])
-                                     for i, sub in ptypes.items())]
+        def _m(f, i, sub):
+            if int(i) >= len(f.o["params"]):
+                return False
+            t = f.facts.TC(f.o["params"][int(i)]["t"])
+            return t == sub[1:] if sub.startswith("=") else sub in t
+        fns = [f for f in fns if all(_m(f, i, sub) for i, sub in ptypes.items())]
     return fns
 
 
@@ -127,6 +131,8 @@ def summarise(f, unroll=1):
     for i in f.o.get("inits", ()):
         if i.get("member") and i.get("init") is not None and i.get("written"):
             inits.append(("init", "%s(%s)" % (i["member"], cn.c(i["init"]))))
+        elif (i.get("base") or i.get("delegating")) and i.get("init") is not None and i.get("written"):
+            inits.append(("init", "%s %s" % ("base" if i.get("base") else "delegate", cn.c(i["init"]))))
     for k in inits:
         conds[k] = {frozenset()}
     return conds, nodes
